@@ -11,8 +11,8 @@ RULE = ("kinds: step (real integrator on y'=lambda*y / damped 2x2 blocks with th
         "closed left half-plane incl. the imaginary axis; no eigenvalue of A with Re<=0 other than 0); non-trivial = step accepted; distinct by "
         "(method, |z| decade, arg class, sign of h, dtype)")
 ASSUMPTIONS = ["tolerances are scaled to 1e3*eps*max(1,|lambda|) so that the Newton iteration can converge; comparisons allow K=50 times the induced error h*tol*sum|b|"]
-FLOORS = {"quick": {"accepted_steps": 300, "accepted_steps_z_ge_1e4": 60, "tableau_points": 2000, "usertol_steps_h_ge_1e3": 40},
-          "thorough": {"accepted_steps": 3000, "accepted_steps_z_ge_1e4": 500, "tableau_points": 20000, "usertol_steps_h_ge_1e3": 400}}
+FLOORS = {"quick": {"accepted_steps": 300, "accepted_steps_z_ge_1e4": 60, "tableau_points": 2000, "usertol_steps_h_ge_1e3": 40, "chained_steps": 150},
+          "thorough": {"accepted_steps": 3000, "accepted_steps_z_ge_1e4": 500, "tableau_points": 20000, "usertol_steps_h_ge_1e3": 400, "chained_steps": 150}}
 K = 5.0
 
 
@@ -29,6 +29,11 @@ def gen_cases(tier, seed):
         cases.append(dict(kind="tableau", method=name, cost=2))
         for lz in (4.5, 6.0, 7.5):   # core battery: stiff real decay at large |z| for every method
             cases.append(dict(kind="step", method=name, logz=lz, arg=180.0, hsign=1, hmag=0.1, dtype="float64", pseed=int(rng.integers(1 << 30)), cost=3))
+        for lz, ang in ((0.5, 180.0), (1.7, 180.0), (1.7, 120.0), (2.6, 180.0), (1.0, 250.0)):
+            # consecutive calls on ONE integrator object, each starting exactly where the previous step ended (what OdeSystem does from its
+            # second step on): every one of them must be the step of the stability function
+            cases.append(dict(kind="step", method=name, logz=lz, arg=ang, hsign=int(rng.choice([-1, 1])), hmag=float(10 ** rng.uniform(-2, 0)), dtype="float64",
+                              chain=4, pseed=int(rng.integers(1 << 30)), cost=6))
         for r in range(max(4, reps // 3)):
             # the same z reached with an enormous step and a tiny rate, under ordinary user tolerances (not scaled to lambda)
             cases.append(dict(kind="step", method=name, logz=float(rng.uniform(0, 6)), arg=float(rng.choice([180.0, 135.0, 108.0, 252.0])), hsign=int(rng.choice([-1, 1])),
@@ -125,48 +130,64 @@ def run_case(spec):
     slog = StepLog(intg)
     rhs = de.DiffRHS(f)
     rhs.hook_jacobian_call(jac)
-    try:
-        _, (dT, dY) = intg(rhs, np.asarray(0.0, dtype=dt), y0, {}, np.asarray(h, dtype=dt))
-    except Exception as e:
-        rec.bump("not_accepted_" + type(e).__name__)
-        rec.sample = {"spec": spec, "raised": type(e).__name__}
-        return rec.out()
-    hacc = float(dT)
-    zacc = complex(hacc * a, hacc * b)
-    y1 = (y0 + dY).astype(np.longdouble)
-    ratio = float(np.sqrt(np.sum(y1 ** 2)) / np.sqrt(np.sum(y0.astype(np.longdouble) ** 2)))
-    R = stability_function(cls, zacc)
-    Rabs = float(abs(R))
+    t_now = np.asarray(0.0, dtype=dt)
     sb = float(np.sum(np.abs(cls.tableau_final[0, 1:])))
-    slack = K * (abs(hacc) * tol * sb * np.sqrt(len(y0)) / float(np.sqrt(np.sum(y0 ** 2))) + 64 * eps * info["stages"])
-    slack_h = slack
-    if usertol:
-        # under a user tolerance the accepted STATE must be right to that tolerance whatever the step size: no factor |h|
-        slack = K * (tol * sb * np.sqrt(len(y0)) / float(np.sqrt(np.sum(y0 ** 2))) + 64 * eps * info["stages"])
-        rec.bump("usertol_steps")
-        if abs(hacc) >= 1e3:
-            rec.bump("usertol_steps_h_ge_1e3")
-    rec.bump("accepted_steps")
-    if abs(zacc) >= 1e4:
-        rec.bump("accepted_steps_z_ge_1e4")
-    if abs(hacc) < abs(h):
-        rec.bump("accepted_after_shortening")
-    rec.nontrivial = True
-    rec.worst("growth_minus_one_over_slack", (ratio - 1.0) / slack)
-    rec.worst("ratio_vs_R_over_slack", abs(ratio - Rabs) / slack)
-    rec.sample = {"spec": spec, "z_accepted": [zacc.real, zacc.imag], "ratio": ratio, "abs_R": Rabs, "attempts": len(slog.attempts)}
-    def mech(default, excess):
-        # attribution: the stage equations are solved to an ABSOLUTE tolerance on the stage slopes (0.5*(atol+rtol|y|)) that is not
-        # divided by the step, so the state error can reach |h| times the tolerance
-        if usertol and abs(hacc) > 1 and excess <= 10 * slack_h:
-            return "stage_tolerance_not_scaled_by_step_size"
-        return default
-    if ratio > 1.0 + slack:
-        rec.violate("stiff_decay_growth", mech("accepted_step_increases_norm_on_decaying_problem", ratio - 1.0), feats, ratio=ratio, z=[zacc.real, zacc.imag], slack=slack, abs_R=Rabs,
-                    h=hacc, tol=tol)
-    if abs(ratio - Rabs) > slack:
-        rec.violate("stability_function_mismatch", mech("step_disagrees_with_stability_function_of_tableau", abs(ratio - Rabs)), feats, ratio=ratio, abs_R=Rabs, z=[zacc.real, zacc.imag],
-                    slack=slack, h=hacc, tol=tol)
+    for link in range(1 + int(spec.get("chain", 0))):
+        fl = dict(feats, link=link) if spec.get("chain") else feats
+        try:
+            _, (dT, dY) = intg(rhs, t_now, y0, {}, np.asarray(h, dtype=dt))
+        except Exception as e:
+            rec.bump("not_accepted_" + type(e).__name__)
+            if link == 0:
+                rec.sample = {"spec": spec, "raised": type(e).__name__}
+            return rec.out()
+        hacc = float(dT)
+        zacc = complex(hacc * a, hacc * b)
+        y1 = (y0 + dY).astype(np.longdouble)
+        ratio = float(np.sqrt(np.sum(y1 ** 2)) / np.sqrt(np.sum(y0.astype(np.longdouble) ** 2)))
+        R = stability_function(cls, zacc)
+        Rabs = float(abs(R))
+        slack = K * (abs(hacc) * tol * sb * np.sqrt(len(y0)) / float(np.sqrt(np.sum(y0 ** 2))) + 64 * eps * info["stages"])
+        slack_h = slack
+        if usertol:
+            # under a user tolerance the accepted STATE must be right to that tolerance whatever the step size: no factor |h|
+            slack = K * (tol * sb * np.sqrt(len(y0)) / float(np.sqrt(np.sum(y0 ** 2))) + 64 * eps * info["stages"])
+            rec.bump("usertol_steps")
+            if abs(hacc) >= 1e3:
+                rec.bump("usertol_steps_h_ge_1e3")
+        rec.bump("accepted_steps")
+        if link > 0:
+            rec.bump("chained_steps")
+        if abs(zacc) >= 1e4:
+            rec.bump("accepted_steps_z_ge_1e4")
+        if abs(hacc) < abs(h):
+            rec.bump("accepted_after_shortening")
+        rec.nontrivial = True
+        rec.worst("growth_minus_one_over_slack", (ratio - 1.0) / slack)
+        rec.worst("ratio_vs_R_over_slack", abs(ratio - Rabs) / slack)
+        if link == 0:
+            rec.sample = {"spec": spec, "z_accepted": [zacc.real, zacc.imag], "ratio": ratio, "abs_R": Rabs, "attempts": len(slog.attempts)}
+
+        def mech(default, excess):
+            # attribution: the stage equations are solved to an ABSOLUTE tolerance on the stage slopes (0.5*(atol+rtol|y|)) that is not
+            # divided by the step, so the state error can reach |h| times the tolerance
+            if usertol and abs(hacc) > 1 and excess <= 10 * slack_h:
+                return "stage_tolerance_not_scaled_by_step_size"
+            return default
+        if slack > 0.05:
+            rec.bump("links_too_small_to_judge")      # the state decayed below the solver tolerance: nothing can be said about this link
+            break
+        if ratio > 1.0 + slack:
+            rec.violate("stiff_decay_growth", mech("accepted_step_increases_norm_on_decaying_problem", ratio - 1.0), fl, ratio=ratio, z=[zacc.real, zacc.imag], slack=slack, abs_R=Rabs,
+                        h=hacc, tol=tol)
+        if abs(ratio - Rabs) > slack:
+            rec.violate("stability_function_mismatch", mech("step_disagrees_with_stability_function_of_tableau", abs(ratio - Rabs)), fl, ratio=ratio, abs_R=Rabs, z=[zacc.real, zacc.imag],
+                        slack=slack, h=hacc, tol=tol)
+        # the next call starts exactly at the end of this step
+        t_now = np.asarray(t_now + dT, dtype=dt)
+        y0 = np.asarray(y0 + dY, dtype=dt)
+        if not np.all(np.isfinite(y0)) or float(np.max(np.abs(y0))) == 0.0:
+            break
     return rec.out()
 
 
